@@ -37,9 +37,9 @@ BOUNDS["C03"] = {
     "outside": "two or more undisclosed messages; L > 3; symbolic sk / e / challenge / blinding (fixed values, see level_note)",
 }
 BOUNDS["C04"] = {
-    "quick": "the C03 shapes x {message edit, header edit, ph edit, index move} where applicable",
+    "quick": "the C03 shapes x {message edit, header edit, ph edit, index move, surplus message} where applicable; payload bit flips in every segment for (L=1, nothing disclosed) and (L=2, all disclosed)",
     "thorough": "as C03 thorough",
-    "outside": "bit flips of proof octets, scalar-granular truncation/extension (length strictness is C09), other public key, forgeries built without a signature, serde-deserialized proofs",
+    "outside": "bit flips of framing octets and scalar-granular truncation/extension (C09), other public key, forgeries built without a signature, serde-deserialized proofs",
 }
 BOUNDS["C05"] = {
     "quick": "issuance (L, M) in {(0,0), (1,0), (0,1)}; blind presentation (L, M) in {(0,0), (1,0), (0,1), (1,1)} with all messages disclosed; header None/empty/1/2 octets",
